@@ -7,7 +7,7 @@ compared with the closed formulas built from the header constants; the complex e
 """
 import math, random, collections
 import numpy as np
-from .. import common, refdata, execlib, xl
+from .. import common, refdata, execlib, xl, srctab
 from . import formula_model as fm
 
 TOL = 1e-12             # sum of <= 40 positive products evaluated in a different order: relative error <= 40 * 2^-53 < 1e-14
@@ -42,8 +42,20 @@ def resolve(X, name):
         return dict(kind='formula', Z=np.array(r['Elements']), w=np.array(r['massFractions']), density=None)
     r = X.nist(name)
     if not isinstance(r, xl.Err):
-        return dict(kind='nist', Z=np.array(r['Elements']), w=np.array(r['massFractions']), density=r['density'])
+        # "its own tabulated density": the number in the table the catalogue is compiled from where that can be read from the source text
+        # (density_api is what the lookup hands out; C15 compares the two)
+        src = _nist_src().get(name)
+        return dict(kind='nist', Z=np.array(r['Elements']), w=np.array(r['massFractions']), density=src['density'] if src else r['density'], density_api=r['density'])
     return None
+
+
+_SRC = []
+
+
+def _nist_src():
+    if not _SRC:
+        _SRC.append(srctab.nist_compounds())
+    return _SRC[0]
 
 
 def grid_for(sig):
